@@ -79,4 +79,9 @@ class TaskHandler:
             for key in dict(self._pending).keys():
                 get = self._pending.get(key)
                 if get is not None:
-                    self._pending[key].result(10)
+                    try:
+                        # use the future we already hold: the completion callback may remove the entry meanwhile
+                        get.result(10)
+                    except Exception:
+                        # a failed (or slow) task is reported by its completion callback; flush only waits
+                        logging.debug("Task %s did not complete cleanly", key)
